@@ -42,6 +42,8 @@ ASSUMPTIONS = [
     "between switch-out and switch-in nobody writes the suspended coroutine's saved 72 bytes nor its stack_pointer field",
     "MXCSR reserved bits are zero (hardware invariant); the message given to cmi_coroutine_start is dropped by the trampoline "
     "(the code clears rax), so C03's 'handed over' is claimed for resume / transfer / yield / exit only",
+    "a coroutine is not re-initialised while it is RUNNING, nor while another coroutine is still suspended in a transfer to it "
+    "(debug assert cmi_coroutine_stack_valid(to) after the switch, cmi_coroutine.c:255)",
     "release asserts of cmi_coroutine.c (and the debug asserts documenting a precondition: reset/initialize of main or of the "
     "current coroutine, stopping main) are preconditions: the model faults, the generator never emits such an operation",
 ]
@@ -158,7 +160,7 @@ def run(chk):
         elif not problems:
             validated += n
         # (iii) dynamic probes: instruction semantics against the CPU (test evidence)
-        files = ctxcorr.regfiles(chk.seed, 64 if quick else 2000)
+        files = ctxcorr.regfiles(chk.seed, 512 if quick else 8000)
         mres = ctxcorr.model_rt(lean_exe, files)
         rc, cres, cerr = ctxcorr.cpu_rt(c_exe, files)
         evals += len(files)
@@ -174,7 +176,7 @@ def run(chk):
                 nontriv.add("rt-" + ctxcorr.rt_line(rf))
         chk.cov["probe_roundtrip_register_files"] = len(files)
         probes_bad = []
-        nseeds = 2 if quick else 12
+        nseeds = 4 if quick else 24
         for k in range(nseeds):
             rc, o, e = vlib.run_driver(c_exe, "", args=["yieldprobe", str(chk.seed * 100 + k)], timeout=300)
             evals += 1
@@ -209,21 +211,23 @@ def run(chk):
             d = ctxcorr.compare_script(c_exe, lean_exe, lines)
             if d is not None:
                 bad_total.append((lines, d))
-        total, max_ops = (640, 120) if quick else (16000, 400)
+        total, max_ops = (3200, 150) if quick else (32000, 400)
         stats, bad = ctxcorr.run_generated(chk.seed, total, max_ops, c_exe, lean_exe)
         bad_total += bad
-        if not quick:
-            san = vlib.build_impl("san")
-            try:
-                c_san = ctxcorr.build_harness(san)
-                st2, bad2 = ctxcorr.run_generated(chk.seed + 4242, 640, 120, c_san, lean_exe)
-                chk.cov["san_scripts"] = len(st2)
-                chk.cov["san_disagreements"] = len(bad2)
-                if bad2:
-                    chk.notes.append("sanitizer build: %d scripts end differently (first: %s); the hand-switched stacks are not "
-                                     "annotated for ASan, so this is reported here and judged under C10" % (len(bad2), bad2[0][1]["impl"][:200]))
-            except vlib.ImplBuildError as ex:
-                chk.notes.append("san harness did not build: %s" % str(ex)[:200])
+        # the same generator against the sanitizer build (ASan + UBSan, debug asserts on)
+        san_stats = []
+        try:
+            c_san = ctxcorr.build_harness(vlib.build_impl("san"))
+            san_stats, bad2 = ctxcorr.run_generated(chk.seed + 4242, 320 if quick else 3200, 120, c_san, lean_exe)
+            for name, lines in ctxcorr.corpus_scripts():
+                d = ctxcorr.compare_script(c_san, lean_exe, lines)
+                if d is not None:
+                    bad2.append((lines, d))
+            chk.cov["san_scripts"] = len(san_stats)
+            bad_total += bad2
+            stats += san_stats
+        except vlib.ImplBuildError as ex:
+            chk.notes.append("san harness did not build: %s" % str(ex)[:300])
         evals += len(stats) + n_corpus
         validated += len(stats) + n_corpus - len(bad_total)
         for s in stats:
